@@ -568,7 +568,6 @@ package dials
 //@   requires dials_type_nonnil: t != nil
 //@   ensures r == t.t
 
-
 //@ macro isWatcherSrc(s Iface) bool = s != nil && impl(s, "dials.Watcher")
 //@ func dials.(Params).Config(p, ctx, t, sources) (d, err)
 //@   props C04 C05 C08 C09
